@@ -541,9 +541,16 @@ pub fn run_spec(spec: &RunSpec, prop: Prop, opts: &RunOpts) -> RunResult {
     // ---- shared instances ----------------------------------------------------------------
     let mut shared: Vec<Box<dyn Slot>> = vec![];
     for (si, cfg) in spec.slots.iter().enumerate() {
-        match build_slot(cfg) {
+        let on_thread = spec.build_on_thread.get(si).copied().unwrap_or(false);
+        let (built, log) = if on_thread {
+            // built elsewhere, then moved (Send): thread-affine state in the crate would show
+            res.counters.add("reach.interpolator_built_on_another_thread", 1);
+            std::thread::scope(|sc| sc.spawn(|| (build_slot(cfg), stub::take_build_log())).join()).unwrap_or_else(|_| (Err(BuildFail::Panic("builder thread panicked".into())), stub::BuildLog::default()))
+        } else {
+            (build_slot(cfg), stub::take_build_log())
+        };
+        match built {
             Ok(s) => {
-                let log = stub::take_build_log();
                 if cfg.kind.is_probe() {
                     for s in log.violations {
                         res.violations.push(Violation { property: "C18".into(), kind: "build-invariant".into(), detail: format!("slot={si} [{}] min={} {s}", cfg.label(), cfg.probe_min), thread: 0, op: 0, step: 0 });
